@@ -189,7 +189,7 @@ func (x *c20SX) compare(op token.Token, a, b c20V, st *c20St, at ast.Node) []c20
 		switch a.k {
 		case c20kNil:
 			return known(!neg)
-		case c20kErr, c20kRef:
+		case c20kErr, c20kRef, c20kFunc, c20kAgg:
 			return known(neg)
 		case c20kObj:
 			if a.tag == "err" {
